@@ -1,5 +1,5 @@
 (** Proofs about x/inflation (properties C13 and C05). *)
-From Coq Require Import ZArith List Bool Lia Psatz.
+From Coq Require Import ZArith List Bool Lia.
 From Canto Require Import Lib.SdkInt Lib.SdkDec Lib.SdkDecProofs Model.Epochs Proofs.EpochsProofs Model.Inflation.
 Import ListNotations.
 Open Scope Z_scope.
